@@ -3,7 +3,7 @@ History + model: every strain() is compared with the pure selection on the in-me
 (names, levels, geometry, boxes, per-box bits, restricted min/max rows) and must validate."""
 import os, random
 import numpy as np
-from .. import common, gen, refparse, refmodel, workload, pools
+from .. import common, gen, refparse, refmodel, workload, pools, endurance
 
 ID = "C05"
 LEVEL = "exploration"
@@ -16,7 +16,7 @@ RULE = ("cases = generated 2D/3D plotfiles (any layout, special payloads, format
         "non-monotone layout at some level")
 ASSUMPTIONS = ["generator/refparse trusted base", "pool shim M1 with shuffled schedules",
                "selections with duplicates or with no present name: only 'raise or taste-valid'"]
-REQUIRED_OBS = {"strained": 100, "strained_onto_existing_output": 20, "unusual_field_names": 4, "cli_runs": 5, "level_dropped": 10, "reordered": 10, "two_digit_to_one_digit": 10}
+REQUIRED_OBS = {"endurance_calls": 100, "strained": 100, "strained_onto_existing_output": 20, "unusual_field_names": 4, "cli_runs": 5, "level_dropped": 10, "reordered": 10, "two_digit_to_one_digit": 10}
 TIMEOUT = {"quick": 300, "thorough": 1500}
 
 
@@ -41,7 +41,8 @@ def cases(tier, seed):
     if tier == "thorough":
         for a in ("example_plt_2d", "example_plt_3d", "plt_eb_3d"):
             cs.append({"asset": a, "sel_seed": seed, "nsel": 3})
-    return cs
+    # M10: the same operation repeated in one process under a low open-file limit (vlib/endurance.py)
+    return list(cs) + [endurance.case("strain", tier, seed)]
 
 
 _calls = {}
@@ -60,6 +61,7 @@ def setup():
                 _calls[name] = _calls.get(name, 0) + 1
                 return orig(args)
             w.__name__ = name
+            w.__wrapped__ = orig
             return w
         setattr(C, name, mk(orig, name))
 
@@ -95,6 +97,8 @@ def selections(names, rng, n):
 
 
 def run_case(case, work, rec):
+    if case.get("kind") == "endurance":
+        return endurance.run_case(case, work, rec)
     from amr_kitchen.colander import Colander
     rng = random.Random(case["sel_seed"])
     if "asset" in case:
